@@ -902,7 +902,13 @@ pub fn c24(tier: Tier) -> i32 {
                     rep.violation(Violation { class, kinds: kinds_v, replay, detail: format!("in one transaction: {} ; as auto-commit statements: {}", g.show(), w.show()) });
                 }
             }
-            (_, w, g) => rep.violation(Violation { class: "read_back_failed".into(), kinds: kinds_v, replay, detail: format!("{:?} / {:?}", w.err(), g.err()) }),
+            (_, Err(_), _) => rep.outcome("reference_sequence_outside_scope"),
+            (_, Ok(w), Err(e)) => {
+                rep.add_nontrivial(1);
+                let class = if e.contains("listed twice") { "own_writes_not_seen:duplicate_node".to_string() } else { "read_back_failed".to_string() };
+                rep.outcome(&class);
+                rep.violation(Violation { class, kinds: kinds_v, replay, detail: format!("in one transaction: {e}; as auto-commit statements: {}", w.show()) });
+            }
         }
     });
     rep.sample(json!({"statements": ["CREATE (:A {uid: 1})", "MATCH (a:A) SET a.v = 1"]}));
